@@ -17,6 +17,7 @@ import Orbiter.Expect
 import Orbiter.Lemmas.Reach
 import Orbiter.Lemmas.Sorted
 import Orbiter.Lemmas.Canonical
+import Orbiter.Lemmas.KeyCodec
 namespace Orbiter.C17
 open Orbiter
 
@@ -92,6 +93,18 @@ theorem c17_export_canonical (wr₁ wr₂ : Wiring) (w₁ w₂ : World) (ops₁ 
 /-- Non-vacuity: the order the store keeps tells `[2, 3]` from `[3, 2]` — one content, one list (hypotheses met by the empty store:
 `c17_good_initially`, `Equiv_refl`). -/
 example : SortedBy intLt [2, 3] ∧ ¬ SortedBy intLt [3, 2] := by unfold SortedBy; decide
+
+/-- **The store holds the keys the model says it holds.** After any history from a state satisfying the invariant, every statistics key
+is written by the non-terminal string codec of the pinned collections fork (which keeps only the first byte of every character:
+`sdkEncStrNT`, `Lemmas/KeyCodec.lean`) exactly as the model's faithful encoding writes it — because every identifier that passes
+validation is ASCII (repair `8388b7e`). This is the theorem the defect of that repair falsified: see `c17_non_ascii_key_not_faithful`. -/
+theorem c17_stored_keys_faithful (wr : Wiring) (w : World) (ops : List Op) (hi : w.orb.Inv) :
+    (∀ e ∈ (run wr w ops).orb.amounts, e.1.sdkEnc = e.1.enc) ∧ (∀ e ∈ (run wr w ops).orb.counts, e.1.sdkEnc = e.1.enc) :=
+  (run_inv wr w ops hi).keys_faithful
+
+/-- …and the hypothesis is needed: for the identifier `nöble`, which validation accepted before the repair, the codec writes another key. -/
+theorem c17_non_ascii_key_not_faithful : sdkEncStrNT "nöble" ≠ encStrNT "nöble" ∧ validateCounterpartyID "nöble" PROTOCOL_INTERNAL = false :=
+  ⟨sdkEnc_differs_on_non_ascii, by decide⟩
 
 /-- Every genesis-initialised store has its parameters set. -/
 theorem c17_params_set_by_genesis (g : Genesis) (o : OrbState) (h : initGenesis g = .ok o) : o.params.isSome = true := by
